@@ -10,7 +10,7 @@ Section Gcv.
   Notation "x * y" := (fmul O x y). Notation "x / y" := (fdiv O x y).
 
   (** literals of the source *)
-  Record gconsts := { c_pi : F; c_1em15 : F; c_1e15 : F; c_14826 : F; c_4685 : F }.
+  Record gconsts := { c_pi : F; c_1em15 : F; c_1e15 : F; c_14826 : F; c_4685 : F; c_1em9 : F }.
   Variable K : gconsts.
 
   (** d_eigs = -2 + 2 * cos(arange(m) * pi / m); d_eigs[0] = 1e-15 *)
@@ -70,13 +70,16 @@ Section Gcv.
     let n := length s in
     if Nat.even n then (nth (n / 2 - 1) s (f0 O) + nth (n / 2) s (f0 O)) / fofZ O 2 else nth (n / 2) s (f0 O).
 
-  (** one robust reweighting (after the fix: scale over the cells that still carry weight, skipped when MAD = 0) *)
+  (** one robust reweighting (after the fix: commits: scale over the cells that still carry weight, skipped when the MAD is not above 1e-9 of the data magnitude) *)
   Definition robust_update (de : list F) (n s : F) (wt y ytemp rw : list F) : list F :=
     let r_arr := map2 (fsub O) y ytemp in
     let sel := map snd (filter (fun t => negb (feqb O (fst t) (f0 O))) (combine wt r_arr)) in
     let med := median sel in
     let mad := median (map (fun r => fabs O (r - med)) sel) in
-    if fltb O (f0 O) mad then
+    (* mad > 1e-9 * max(1.0, np.max(np.abs(yv))) *)
+    let amax := match y with [] => f0 O | a :: r => fold_left (fun acc v => if fltb O acc (fabs O v) then fabs O v else acc) r (fabs O a) end in
+    let floor_ := c_1em9 K * (if fltb O (f1 O) amax then amax else f1 O) in
+    if fltb O floor_ mad then
       let scale := (c_14826 K * mad) * fsqrt O (f1 O - fsum O (gamma de s wt) / n) in
       map (fun r =>
              let u := r / scale in
